@@ -45,6 +45,7 @@ type Gen struct {
 	stats map[string]int
 	cliFocus string // C15: the <id> the next `info` should look at
 	partHeavy    bool // this history is about partitions: half of its objects are partitions of all four types
+	emptyTail    uint32 // an empty object was just added at an aligned offset beyond the stored bytes (its ID): next, another object is deleted with compaction
 	afterCut     bool // the file has just been cut short: next, an object reaching beyond the new end is deleted with zeroing
 	noGrow       bool // the image's descriptor table lies behind its data section: the history does not add objects (the library lays new data out on the assumption that nothing follows the data section)
 	promoteLow   bool // slot 1 holds a system partition, slot 2 the primary one: promote the lower one
@@ -573,6 +574,34 @@ func (g *Gen) nextOp(f *sif.FileImage) *Op {
 				return &Op{Kind: "del", T: g.topt(), Sel: Sel{Kind: "id", N: 1}, Zero: true, Compact: r.Chance(1, 3)}
 			}
 		}
+	}
+	if g.emptyTail != 0 {
+		tail := g.emptyTail
+		g.emptyTail = 0
+		f.WithDescriptors(func(d sif.Descriptor) bool {
+			if d.Name() == "empty-tail" && d.Size() == 0 {
+				tail = d.ID()
+			}
+			return false
+		})
+		var others []uint32
+		for _, id := range in.ids {
+			if id != tail {
+				others = append(others, id)
+			}
+		}
+		if len(others) > 0 {
+			g.count("op:compacting-delete-under-an-empty-aligned-tail")
+			return &Op{Kind: "del", T: g.topt(), Sel: Sel{Kind: "id", N: int64(pick(r, others))}, Zero: r.Chance(1, 2), Compact: true}
+		}
+	}
+	if !g.noGrow && in.free > 0 && len(in.ids) > 0 && r.Chance(1, 25) {
+		// an empty object whose alignment puts its offset beyond the last stored byte (adding it does
+		// not extend the file); the next operation compacts
+		g.emptyTail = ^uint32(0)
+		g.count("op:empty-aligned-add")
+		return &Op{Kind: "add", T: g.topt(), Valid: true, DI: DI{DT: 0x4007, Fail: -1, Data: DataSpec{Lit: nil},
+			Opts: []DIOpt{{Kind: "align", I: pick(r, []int64{4096, 65536, 512})}, {Kind: "name", B: []byte("empty-tail")}}}}
 	}
 	if g.afterCut {
 		g.afterCut = false
